@@ -207,6 +207,8 @@ class _Repr:
     def repr(tasks: Iterable['Task'], fields: Iterable[str] = None, children=True, theme: dict = None):
         if fields is None:
             fields = ['id', 'name', 'resource', 'estimate', 'spent', 'start', 'end', 'predecessors']
+        # The names are read once for the header and once per task: a one-shot iterable must not be used up by the header
+        fields = list(fields)
 
         if theme is None:
             theme = _Repr.__DEFAULT_THEME
